@@ -36,6 +36,11 @@ def legal(c: Case) -> bool:
     if c.func in ARG and c.chunks is not None and c.method == "blockwise" and len(c.chunks) > 1:
         return False
     if c.chunks is not None:
+        if c.method == "blockwise":
+            # documented precondition: every group within one block; 1-D sequential labels are rechunked automatically
+            ks = [(l is None, 0 if l is None else l) for l in c.labels]
+            if ks != sorted(ks):
+                return False
         if c.method == "cohorts" and (c.dask_labels or c.reindex is True):
             return False
         if c.method == "blockwise" and c.reindex is True and not c.dask_labels:
